@@ -45,6 +45,16 @@ def check(ctx, cfg):
     r7(ctx, cfg)
     r8(ctx, cfg)
     r9(ctx, cfg)
+    r10(ctx, cfg)
+
+
+def r10(ctx, cfg):
+    """"a query ... observes exactly the committed state": what the bank's queries answer is what the ledger holds - Balance the
+    entry of the queried denomination (zero of it when absent), AllBalances the stored list as it is, Supply the sum of every
+    coin of that denomination over all balances, each read through the bank's view of the store the query was given (the C09.R5
+    obligations under C10's id: a Supply that looks only at some coins answers a state nobody committed)"""
+    from rules import C09
+    C09.r5(ctx, cfg, R="C10.R10")
 
 
 def r9(ctx, cfg):
